@@ -15,6 +15,8 @@ inductive Val where
   | bool (b : Bool)
   | other (repr : String)
   | dyn
+  /-- a list / tuple of ints (boards given as an iterable to `BMPController.set_power` / `set_led`) -/
+  | ints (l : List Int)
   deriving Repr, DecidableEq, Inhabited
 
 /-- insertion-ordered `dict` with string keys: association list without duplicate keys -/
